@@ -24,6 +24,7 @@ func init() {
 		Rules: map[string]string{
 			"R1": "the call graph restricted to the library package is acyclic (Tarjan SCC over static + closure + VTA edges, `go` edges excluded)",
 			"R2": "every json.Unmarshal whose input derives from Entry.Value() has its error compared with nil; from the err != nil edge no claim-set unit and no Update/Delete store operation is reachable (Create is allowed)",
+			"R7": "every method invocation on an Entry whose origin is a KeyValue.Get of this library is guarded by NOT (entry == nil)",
 			"R3": "every TypeAssert on a record-derived operand is comma-ok; no Index/Slice with a non-constant index on record-derived bytes",
 			"R6": "every takeover Update is guarded by NOT (\"\" == decoded.ID): a live record that is valid JSON but no leadership payload is never overwritten (shared with C10-R1)",
 			"R4": "every CFG cycle that reaches a store operation or has no exit contains a blocking instruction on every path round the cycle",
@@ -369,6 +370,44 @@ func checkC13(c *Ctx) {
 
 	// ---- R6 --------------------------------------------------------------------
 	takeoverNamesLeaderRule(c, "R6")
+
+	// ---- R7: an entry read from the store is used only after a nil test -----------------------
+	// Get answers (nil, nil) in the library's own adapters for a key that holds no entry (deleted
+	// by an outside party a moment ago): a method call on it is a nil dereference, in a goroutine
+	// without recover.
+	nUse := 0
+	for _, f := range m.Funcs {
+		eachInstr(f, func(in ssa.Instruction) {
+			call, ok := in.(*ssa.Call)
+			if !ok || !call.Call.IsInvoke() || namedOf(call.Call.Value.Type()) != m.EntryIface {
+				return
+			}
+			if !m.Origins(call.Call.Value)["entry"] {
+				return // not (only) the result of a Get: watch entries have their own nil convention (C06/C13-R2)
+			}
+			nUse++
+			want := m.Sym.Of(call.Call.Value).String()
+			tested := false
+			for _, l := range m.AllGuards(in, false) {
+				if l.Truth || l.S.Op != "bin" || l.S.Name != "==" || len(l.S.Args) != 2 {
+					continue
+				}
+				for i := 0; i < 2; i++ {
+					if l.S.Args[i].String() == "nil" && (l.S.Args[1-i].String() == want || (l.S.Args[1-i].V != nil && m.Origins(l.S.Args[1-i].V)["entry"])) {
+						tested = true
+					}
+				}
+			}
+			key := fmt.Sprintf("entry.%s() #%d on the result of a Get in %s", call.Call.Method.Name(), ordinalOf(f, in, func(x ssa.Instruction) bool {
+				c2, ok := x.(*ssa.Call)
+				return ok && c2.Call.IsInvoke() && namedOf(c2.Call.Value.Type()) == m.EntryIface && c2.Call.Method.Name() == call.Call.Method.Name() && m.Origins(c2.Call.Value)["entry"]
+			}), shortFn(f))
+			c.check(tested, "R7", key, in, "guarded by `entry != nil`: %v (the adapters return (nil, nil) for a key without an entry: a record deleted between two operations of this instance)", tested)
+		})
+	}
+	if nUse < 3 {
+		c.undecided("R7", "instance-floor", nil, "only %d uses of an entry returned by Get found", nUse)
+	}
 }
 
 // ordinalOf numbers the instructions of f satisfying pred in source order; returns the number of `in`.
